@@ -47,11 +47,23 @@ type mdGraph struct {
 	attF   int              // attachment on the function (-1 none)
 	attI   []int            // attachments on instructions
 	hasFwd bool
+	zeros  bool // IDs are spelled with leading zeros here and there (!007 is !7)
+	nref   int
+}
+
+// idSpelling spells a metadata ID, with leading zeros at some sites of graphs
+// that have the zeros flag.
+func (g *mdGraph) idSpelling(id int) string {
+	g.nref++
+	if g.zeros && (g.nref*7+id)%3 == 0 {
+		return fmt.Sprintf("!%0*d", 2+(g.nref+id)%3, id)
+	}
+	return fmt.Sprintf("!%d", id)
 }
 
 func genMDGraph(rng *rand.Rand) *mdGraph {
 	n := 4 + rng.Intn(37)
-	g := &mdGraph{attF: -1}
+	g := &mdGraph{attF: -1, zeros: rng.Intn(4) == 0}
 	ids := rng.Perm(3 * n)[:n]
 	for i := 0; i < n; i++ {
 		nd := mdNode{id: ids[i], payload: fmt.Sprintf("node-%d", i), distinct: rng.Intn(4) == 0}
@@ -113,7 +125,7 @@ func genMDGraph(rng *rand.Rand) *mdGraph {
 			}
 		}
 	}
-	names := []string{"alpha", "beta", "llvm.stuff", "n10", "n9"}
+	names := []string{"alpha", "beta", "llvm.stuff", "n10", "n9", "5", "0", "7x", "a b", "12", "x\\y"}
 	nn := 1 + rng.Intn(4)
 	for k := 0; k < nn; k++ {
 		name := names[rng.Intn(len(names))]
@@ -139,7 +151,7 @@ func (g *mdGraph) ref(i int) string {
 	if i < 0 {
 		return "null"
 	}
-	return fmt.Sprintf("!%d", g.nodes[i].id)
+	return g.idSpelling(g.nodes[i].id)
 }
 
 func (g *mdGraph) text(rng *rand.Rand) string {
@@ -156,7 +168,7 @@ func (g *mdGraph) text(rng *rand.Rand) string {
 		if nd.distinct {
 			d = "distinct "
 		}
-		top = append(top, fmt.Sprintf("!%d = %s!{%s}\n", nd.id, d, strings.Join(fields, ", ")))
+		top = append(top, fmt.Sprintf("%s = %s!{%s}\n", g.idSpelling(nd.id), d, strings.Join(fields, ", ")))
 	}
 	rng.Shuffle(len(top), func(i, j int) { top[i], top[j] = top[j], top[i] })
 	var sb strings.Builder
@@ -175,22 +187,22 @@ func (g *mdGraph) text(rng *rand.Rand) string {
 		for _, i := range nm[1].([]int) {
 			rs = append(rs, g.ref(i))
 		}
-		fmt.Fprintf(&sb, "!%s = !{%s}\n", nm[0], strings.Join(rs, ", "))
+		fmt.Fprintf(&sb, "!%s = !{%s}\n", mdNameSpelling(nm[0].(string)), strings.Join(rs, ", "))
 	}
 	for ; pos < len(top); pos++ {
 		sb.WriteString(top[pos])
 	}
 	for k, a := range g.attG {
-		fmt.Fprintf(&sb, "@g%d = global i32 %d, !att !%d\n", k, k, g.nodes[a].id)
+		fmt.Fprintf(&sb, "@g%d = global i32 %d, !att %s\n", k, k, g.ref(a))
 	}
 	fatt := ""
 	if g.attF >= 0 {
-		fatt = fmt.Sprintf(" !fatt !%d", g.nodes[g.attF].id)
+		fatt = fmt.Sprintf(" !fatt %s", g.ref(g.attF))
 	}
 	fmt.Fprintf(&sb, "define i32 @f(i32 %%x)%s {\n", fatt)
 	prev := "%x"
 	for k, a := range g.attI {
-		fmt.Fprintf(&sb, "  %%v%d = add i32 %s, %d, !iatt !%d\n", k, prev, k, g.nodes[a].id)
+		fmt.Fprintf(&sb, "  %%v%d = add i32 %s, %d, !iatt %s\n", k, prev, k, g.ref(a))
 		prev = fmt.Sprintf("%%v%d", k)
 	}
 	fmt.Fprintf(&sb, "  ret i32 %s\n}\n", prev)
